@@ -184,6 +184,20 @@ func ersView(inv *simapi.Invocation) *ERSView {
 	return v
 }
 
+// rsOwnedBy: the replica set carries the ExtendedDaemonSet's name label and, when it has a
+// controller owner reference, that reference names this ExtendedDaemonSet.
+func rsOwnedBy(rs *v1.ExtendedDaemonSetReplicaSet, eds *v1.ExtendedDaemonSet) bool {
+	if rs.Namespace != eds.Namespace || rs.Labels[v1.ExtendedDaemonSetNameLabelKey] != eds.Name {
+		return false
+	}
+	for _, o := range rs.OwnerReferences {
+		if o.Controller != nil && *o.Controller && (o.Name != eds.Name || (eds.UID != "" && o.UID != eds.UID)) {
+			return false
+		}
+	}
+	return true
+}
+
 // isDaemonPodOf: the pod belongs to the EDS per the statement (namespace + name label), or
 // to the declared old DaemonSet.
 func isDaemonPodOf(p *corev1.Pod, eds *v1.ExtendedDaemonSet) bool {
@@ -1031,8 +1045,18 @@ func (m *Monitors) onEDS(inv *simapi.Invocation, out kit.Outcome) {
 				foreign = true
 			}
 		}
+		// ... or a replica set of the same namespace that was not even listed (it does not carry this
+		// ExtendedDaemonSet's name label / owner reference): looked up in the store
+		if st := kit.GetRS(m.w.S, v.EDS.Namespace, written.Status.ActiveReplicaSet); st != nil && !rsOwnedBy(st, v.EDS) {
+			foreign = true
+		}
 		if foreign {
 			m.viol("C12", "C12.foreign-replicaset-adopted", nil, inv, map[string]any{"active": written.Status.ActiveReplicaSet})
+		}
+	}
+	if c := written.Status.Canary; c != nil && c.ReplicaSet != "" {
+		if st := kit.GetRS(m.w.S, v.EDS.Namespace, c.ReplicaSet); st != nil && !rsOwnedBy(st, v.EDS) {
+			m.viol("C12", "C12.foreign-replicaset-adopted", map[string]string{"as": "canary"}, inv, map[string]any{"canary": c.ReplicaSet})
 		}
 	}
 	// C14: status function over own replica sets as read
